@@ -60,6 +60,24 @@ class DictCache(CacheValidatorBase[Any]):
 
 
 KEYFNS = {"identity": lambda v: id(v), "typedEq": lambda v: (type(v), v)}
+# "snapshot": keyed by the input's contents at the time of the call (types included, identities not) - the store a
+# serialising cache is: an object edited in place since it was stored is another input
+
+
+def snapshot_keyfn(ctx: wire.Ctx) -> Any:
+    return lambda v: json.dumps(props.strip_ids(wire.canon_value(ctx, v)), sort_keys=True)
+
+
+def mutate_in_place(x: Any) -> bool:
+    if type(x) is list:
+        x.append(0)
+    elif type(x) is dict:
+        x["\x00m"] = len(x)
+    elif type(x) is set:
+        x.add(("\x00m", len(x)))
+    else:
+        return False
+    return True
 
 
 def gen_case(g: VGen, opts: dict) -> dict:
@@ -67,16 +85,21 @@ def gen_case(g: VGen, opts: dict) -> dict:
     g.reset()
     g.async_rate = 0.0 if r.random() < 0.8 else 0.3
     v = g.gen_v(r.choice([0, 1, 1, 2]))
-    key = r.choice(["identity", "typedEq"])
+    key = r.choice(["identity", "typedEq", "snapshot"])
     pool: List[dict] = []
     for _ in range(r.choice([1, 2, 3, 4])):
         c = r.random()
         x = g.hostile() if c < 0.25 else g.conform(v)
         if 0.25 <= c < 0.5:
             x = g.near_miss(x)
-        if key == "identity":
+        if key in ("identity", "snapshot"):
             if "oid" not in x or (x["t"] == "tuple" and not x["xs"]):
                 x = {"t": "list", "oid": g.oid(), "xs": [x]}
+            if key == "snapshot":
+                # a result refers to its input (Invalid.value, an unchanged payload): so that an edit in place never
+                # reaches a result stored for *another* object, no two pool entries ever have the same contents (each
+                # is a list ending in its own marker, and edits only append)
+                x = {"t": "list", "oid": g.oid(), "xs": ([x] if not contains_nan(x) else []) + [{"t": "int", "i": 100 + len(pool)}]}
         else:
             if not is_hashable_desc(x) or contains_nan(x):
                 x = {"t": "int", "i": r.choice([0, 1, 2])}
@@ -89,7 +112,32 @@ def gen_case(g: VGen, opts: dict) -> dict:
     L = r.choice(opts.get("lengths", [0, 1, 2, 3, 5, 8, 12]))
     hist = [{"mode": ("async" if has_async else r.choice(["sync", "async"])), "i": r.randrange(len(pool))}
             for _ in range(L)]
+    if hist and r.random() < 0.3:
+        # cancellations: an async call abandoned while the wrapped validator is suspended, the same input again later
+        for _ in range(r.choice([1, 1, 2])):
+            i = r.randrange(len(pool))
+            at = r.randrange(0, len(hist) + 1)
+            hist.insert(at, {"cancel": i})
+            hist.insert(r.randrange(at + 1, len(hist) + 1), {"mode": "async", "i": i})
+    if key == "snapshot" and hist:
+        # edits in place between calls: the same object, another input
+        for _ in range(r.choice([1, 1, 2, 3])):
+            hist.insert(r.randrange(1, len(hist) + 1), {"mutate": r.randrange(len(pool))})
     return {"env": g.env, "v": v, "classes": g.classes, "key": key, "pool": pool, "history": hist}
+
+
+async def _cancelled_call(cache: Any, x: Any) -> Any:
+    import asyncio
+    t = asyncio.ensure_future(cache.validate_async(x))
+    await build.Yield()              # the task runs up to its first suspension (or to its end)
+    if not t.done():
+        t.cancel()
+    try:
+        return ("done", await t)
+    except asyncio.CancelledError:
+        return ("cancelled", None)
+    except BaseException as e:  # noqa
+        return ("raised", e)
 
 
 def contains_nan(x: Any) -> bool:
@@ -107,7 +155,7 @@ def run_real(case: dict) -> Optional[dict]:
     try:
         inner = build.build(ctx, case["v"], case.get("env", []))
         pool = [wire.mk_value(ctx, x) for x in case["pool"]]
-        keyfn = KEYFNS[case["key"]]
+        keyfn = snapshot_keyfn(ctx) if case["key"] == "snapshot" else KEYFNS[case["key"]]
         for p in pool:
             hash(keyfn(p))
     except Exception as e:  # noqa
@@ -120,12 +168,29 @@ def run_real(case: dict) -> Optional[dict]:
     seen_keys: set = set()
     stored_out: Dict[Any, Any] = {}
     fails: List[str] = []
+    xdescs: List[Any] = []
     for n, c in enumerate(case["history"]):
-        x = pool[c["i"]]
+        if "mutate" in c:
+            mutate_in_place(pool[c["mutate"]])
+            continue
+        x = pool[c["cancel"] if "cancel" in c else c["i"]]
+        xd_now = wire.canon_value(ctx, x)      # the input as it is at the time of this call
         del clog[:]
         nsets = len(cache.sets)
         try:
-            if c["mode"] == "sync":
+            if "cancel" in c:
+                # an async call whose task is cancelled at its first suspension: it must leave no trace (nothing
+                # stored, no later call affected); one that finishes without suspending is an ordinary async call
+                st = build.drive(_cancelled_call(cache, x))
+                if st[0] == "cancelled":
+                    if cache.sets[nsets:]:
+                        fails.append(f"call {n}: a cancelled call stored a result")
+                    continue
+                if st[0] == "raised":
+                    raise st[1]
+                c = {"mode": "async", "i": c["cancel"]}
+                r = st[1]
+            elif c["mode"] == "sync":
                 r = cache(x)
             else:
                 r = build.drive(cache.validate_async(x))
@@ -135,6 +200,9 @@ def run_real(case: dict) -> Optional[dict]:
         except BaseException as e:  # noqa
             out = {"raised": wire.exn_name(e)}
             r = None
+            if "cancel" in c:
+                c = {"mode": "async", "i": c["cancel"]}
+        xdescs.append({"mode": c["mode"], "x": xd_now})
         calls.append({"out": out, "cev": list(clog)})
         # model-free oracle: bare validator on the same object; run/set discipline
         k = keyfn(x)
@@ -170,13 +238,13 @@ def run_real(case: dict) -> Optional[dict]:
         # -- e.g. (Decimal('-0'),) hits the entry of (Decimal('0'),): to a faithful equality-keyed store the
         # two are the same input, so a hit is compared with what the wrapped validator returned for the
         # stored representative
-        cmpf = props.strip_ids if case["key"] == "typedEq" else (lambda z: z)
-        if hit and case["key"] == "typedEq" and k in stored_out:
+        cmpf = props.strip_ids if case["key"] in ("typedEq", "snapshot") else (lambda z: z)
+        if hit and case["key"] in ("typedEq", "snapshot") and k in stored_out:
             bout = stored_out[k]
         if cmpf(wire.normalise(bout)) != cmpf(wire.normalise(out)):
             if not (hit and "raised" in bout):
                 fails.append(f"call {n}: cached call returned something else than the wrapped validator does")
-    return {"calls": calls, "pool": pool_desc, "fails": fails}
+    return {"calls": calls, "pool": pool_desc, "fails": fails, "xdescs": xdescs}
 
 
 def strip_vids(x: Any) -> Any:
@@ -197,7 +265,7 @@ def shard(seed: int, shard_i: int, n: int, opts: dict) -> dict:
             continue
         reals.append(real)
         idx.append(i)
-        hist = [{"mode": h["mode"], "x": real["pool"][h["i"]]} for h in c["history"]]
+        hist = real["xdescs"]
         reqs.append({"op": "cache", "env": c["env"], "v": c["v"], "key": c["key"], "history": hist,
                      "oracle": oracle.tables(c["v"], c["env"], real["pool"]), "fuel": 400})
     answers = driver.run_batch(reqs) if reqs else []
@@ -210,8 +278,8 @@ def shard(seed: int, shard_i: int, n: int, opts: dict) -> dict:
     for real, i, ans in zip(reals, idx, answers):
         c = cases[i]
         evaluated += 1
-        calls += len(c["history"])
-        lens[len(c["history"])] += 1
+        calls += len(real["calls"])
+        lens[len(real["calls"])] += 1
         h = engine.case_hash({"v": c["v"], "pool": real["pool"], "h": c["history"], "k": c["key"]})
         distinct.add(h)
         nh = sum(1 for cl in real["calls"] if len(cl["cev"]) == 1)
